@@ -512,6 +512,39 @@ def line_predicate_differential(ck, tier):
         if (o.strip() == "1") != want:
             ck.disagree("eosP (Lean line predicate) vs the EOS class pattern in CPython re", {"line": ln.decode("latin1")}, f"model={o.strip()} re={want}")
     ck.extra["line_predicate_accepting_lines_eos"] = n_true
+    # and for Cisco NX-OS (`nxosP`, ScrapliProps/C01PlatformNX.lean): optional (maint-mode), tcl alternatives, bare '>'
+    cn = re.compile(C.NXOSDriver(host="h").comms_prompt_pattern.encode(), re.M | re.I)
+    alpha_n = b"abzAZ09_.-@/:+>#()configmaintodelCONFIGMAINT \t\r\x0b\x0c!"
+    base_n = [b"n9k>", b"n9k> ", b"n9k#", b"n9k# ", b"n9k(config)#", b"n9k(config-if)# ", b"n9k(maint-mode)#", b"n9k(MAINT-MODE)>", b"n9k(maint-mode)(config-if)#", b"n9k-tcl#", b"n9k(config-tcl)#",
+              b">", b"> ", b"n9k(maint-mode-tcl)#", b"n9k(maint-mode)(config-tcl)#", b"n9k(maint-mode)(maint-mode)#", b"n9k(maint-mod)#", b"(maint-mode)#", b"n9k(confi)#", b"n(config" + b"m" * 32 + b")#",
+              b"n(config" + b"m" * 33 + b")#", b"a" * 63 + b"#", b"a" * 64 + b"#", b"a" * 63 + b"-tcl#", b"a" * 64 + b"-tcl#", b"a" * 63 + b"(maint-mode)#", b"a" * 64 + b"(maint-mode)>", b"#", b"# ",
+              b"n#  ", b"n>\t", b"n@x#", b"n(x)#", b"n(config)(maint-mode)#", b"n(config)##", b"n# #", b"n9k(maint-mode-tcl)>", b""]
+    lines_n = list(base_n)
+    for _ in range(2000 if tier == "quick" else 25000):
+        ln = bytearray(rng.choice(base_n))
+        for _ in range(rng.randint(0, 3)):
+            k = rng.random()
+            if k < 0.4 and ln:
+                ln[rng.randrange(len(ln))] = rng.choice(alpha_n)
+            elif k < 0.7:
+                ln.insert(rng.randint(0, len(ln)), rng.choice(alpha_n))
+            elif ln:
+                del ln[rng.randrange(len(ln))]
+        if b"\n" not in ln:
+            lines_n.append(bytes(ln))
+    try:
+        outs = run_model("C01", [f"linep nxos {hexs(ln)}" for ln in lines_n], native=True)
+    except Exception as e:
+        ck.proof_broken("model driver Drv/C01.lean (linep nxos)", repr(e))
+        return
+    n_true = 0
+    for ln, o in zip(lines_n, outs):
+        want = cn.search(ln) is not None
+        n_true += want
+        ck.extra["line_predicate_checks_nxos"] = ck.extra.get("line_predicate_checks_nxos", 0) + 1
+        if (o.strip() == "1") != want:
+            ck.disagree("nxosP (Lean line predicate) vs the NX-OS class pattern in CPython re", {"line": ln.decode("latin1")}, f"model={o.strip()} re={want}")
+    ck.extra["line_predicate_accepting_lines_nxos"] = n_true
 
 
 def run(tier, seed):
